@@ -171,6 +171,19 @@ def check(prog, res, tier):
                 if li and isinstance(head.node, ast.For) and ast.unparse(head.node.iter) != 'field_summary' and len(rows) != 1 \
                         and any(isinstance(n, ast.Attribute) and n.attr == 'writerow' for n in ast.walk(head.node)):
                     fails.append(definite(f'{len(rows)} CSV rows are written per record', head.node))
+            for e in p.events:
+                if e.kind == 'method' and e.data['name'] == 'writerow' and e.data['args']:
+                    row = e.data['args'][0]
+                    comp = getattr(row, 'comp', None)
+                    if isinstance(row, DictV) and comp is not None:
+                        ev, srcs, filtered = comp
+                        val = ev.items[1] if isinstance(ev, TupleV) and len(ev.items) == 2 else None
+                        o = getattr(val, 'origin', None)
+                        if not (isinstance(val, SymV) and isinstance(o, tuple) and o and o[0] in ('item', 'method')):
+                            fails.append(definite(f'a CSV cell is not the record value itself but {val!r} '
+                                                  f'({"; ".join(map(str, o[1:2])) if isinstance(o, tuple) else ""}): values such as 0 are altered', e.node))
+                        elif o[0] == 'method' and o[2] != 'get':
+                            fails.append(definite(f'a CSV cell is derived through .{o[2]}() from the record value', e.node))
             hdr = [e for e in p.events if e.kind == 'method' and e.data['name'] == 'writeheader']
             if p.outcome == 'return' and len(hdr) != 1:
                 fails.append(definite(f'the header row is written {len(hdr)} times'))
